@@ -250,7 +250,13 @@ func c17R2(p *core.Prog, r *core.Report, pi *pqInfo) {
 			continue
 		}
 		fname := p.FuncName(fn)
-		checks := pi.admissionChecks(fn)
+		// the admission test (and the insertion behind it) may live in an unexported helper that runs
+		// under the caller's lock
+		scope := core.Helpers(fn, 2)
+		var checks []*ssa.BinOp
+		for _, f := range sortedFuncs(scope) {
+			checks = append(checks, pi.admissionChecks(f)...)
+		}
 		if len(checks) == 0 {
 			r.Violated(rule, fname, "admission check", p.Pos(fn.Pos()), "no comparison of the number of active+queued entries with the limit: more callers than the limit can hold a slot")
 			continue
@@ -275,7 +281,7 @@ func c17R2(p *core.Prog, r *core.Report, pi *pqInfo) {
 			if op != "lock" || !id.Same(pi.li.Spec.ID) {
 				return
 			}
-			seen := core.Reach{Stop: func(in ssa.Instruction) bool { return isCheck[in] }}.FromInstr(c.(ssa.Instruction))
+			seen := core.DeepReach{Reach: core.Reach{Stop: func(in ssa.Instruction) bool { return isCheck[in] }}, Scope: scope}.FromInstr(c.(ssa.Instruction))
 			for in := range seen {
 				if pi.storeField(in) == "" {
 					continue
@@ -377,7 +383,7 @@ func c17R3(p *core.Prog, r *core.Report, pi *pqInfo) {
 		// paths that avoid release and avoid deleting from list k
 		for _, f := range enqFields {
 			f := f
-			seen := core.Reach{Stop: func(in ssa.Instruction) bool { return isRelease(in) || removedFrom(in) == f }}.FromInstr(last)
+			seen := core.DeepReach{Reach: core.Reach{Stop: func(in ssa.Instruction) bool { return isRelease(in) || removedFrom(in) == f }}, Scope: core.Helpers(fn, 2)}.FromInstr(last)
 			if seen[ret] {
 				okPath = false
 				detail = "a cancelled waiter can return without removing itself from Queue." + f + " and without passing on a slot it was handed concurrently: the slot (or the wake-up meant for another waiter) is lost and later callers block forever"
